@@ -22,6 +22,7 @@ func registerIntrinsics(P *Program) {
 	registerJSON(P)
 	registerCrypto(P)
 	registerIO(P)
+	registerKyber(P)
 }
 
 func cstr(v Value) (string, bool) {
@@ -405,6 +406,12 @@ func registerStd(P *Program) {
 	}
 
 	// errors
+	r("(*fmt.wrapError).Error", func(in *Interp, caller *frame, fn *ssa.Function, args []Value) Value {
+		return (*args[0].(Ptr)).(Struct)[0]
+	})
+	r("(*fmt.wrapError).Unwrap", func(in *Interp, caller *frame, fn *ssa.Function, args []Value) Value {
+		return (*args[0].(Ptr)).(Struct)[1]
+	})
 	r("errors.Is", func(in *Interp, caller *frame, fn *ssa.Function, args []Value) Value {
 		err, _ := args[0].(Iface)
 		target, _ := args[1].(Iface)
